@@ -22,7 +22,8 @@ CHECKS["C18"] = (
     "exhaustive calendar enumeration + Hypothesis-generated bins/spans/models against reference tables and a numpy differential",
     "Exhaustive over every hour of a leap and a non-leap year x 8 zones x 4 segment types for the weight tables and hour-of-week; "
     "generated-input search for bin features (all 64 endpoint subsets), prediction routing (random segment models vs an independent "
-    "own-month evaluation), the feature processors and the fitting path (design-matrix weights, weighted least squares differential).",
+    "own-month evaluation; the same instants asked for on three clocks), the feature processors, the fitting path (design-matrix weights, weighted least "
+    "squares differential) and the public wrapper fitted on a whole leap year (every baseline hour's weight).",
     "Trusted: reference weight table, reference bin formula and numpy lstsq in vf/props/c18.py. Exhaustive only for the calendar sub-domain.",
     "DESIGN.md section 6, C18",
 )
@@ -42,7 +43,8 @@ CHECKS["C13"] = (
     "Exhaustive over 16 flag combinations x gaussian on/off x 4 season maps x 3 weekday maps x 4 data shapes for the candidate "
     "generator (exact cover, unsplit present, nothing forbidden or unsupported) and over all 48 exact-cover layouts for routing "
     "(every date of a leap and a non-leap year, parameter-built models); generated fits (legacy, billing, current, developer "
-    "criteria) for the selection clause with an independent recomputation of the criterion.",
+    "criteria; exact timer loads; one-month seasons; re-used objects) for the selection clause with an independent recomputation of the criterion; "
+    "candidate sets of five sites computed in a history in one process and compared with a fresh interpreter (subprocess) per site.",
     "Trusted: vf/ref/daily_curve.py routing table, restated BIC; candidate generator reached through private methods for the cross product.",
     "DESIGN.md section 6, C13",
 )
@@ -108,7 +110,8 @@ CHECKS["C04"] = (
     "Generated-input search over baselines carrying combinations of sufficiency defects (daily legacy/current, billing, hourly) "
     "and int64/float32 column dtypes, crossed with both override flags, storage, reporting argument kinds (own, baseline object, foreign type, "
     "other timezone incl. zones sharing the baseline's offset in one season) and "
-    "fitted/unfitted models; every outcome (returned model/frame or exception type) is compared with the fail-closed decision table.",
+    "fitted/unfitted models, five storage routes (one or two JSON round trips, a to_dict() document loaded once, twice, or loaded and then written out) and a history of "
+    "up to three predict calls on one model and one data object; every outcome (returned model/frame or exception type) is compared with the fail-closed decision table.",
     "Trusted: the decision table in vf/props/c04.py; the data object's own verdict feeds it (C10 judges the verdict).",
     "DESIGN.md section 6, C04",
 )
@@ -129,7 +132,8 @@ CHECKS["C06"] = (
     "Every (zone, transition) pair of pytz 2000-2037 (17k) is driven through the hourly clock-normalisation step with a slot-identifier "
     "vector; HourlyModel.predict is driven through the public API for one pair per (zone, signature) in quick and for all pairs in "
     "thorough (rows = real hours of the local days, finite, neighbouring days equal to the day predicted alone); generated spans for "
-    "hourly, daily and billing models (any start/end hour, gaps, with/without usage, 18 zones) check row identity and the finiteness pattern.",
+    "hourly, daily (also read at 06:00/09:00/13:00) and billing models (any start/end hour, gaps, with/without usage, 18 zones) and for one fitted CalTRACK "
+    "hourly model (a day to fourteen months, frame and from_series) check row identity and the finiteness pattern.",
     "Trusted: pytz transition tables, span_index (UTC arithmetic). Known findings: 2- and 3-hour shifts (listed by signature).",
     "DESIGN.md section 6, C06",
 )
@@ -189,7 +193,7 @@ CHECKS["C02"] = (
     "Hypothesis rule-based state machines over call histories per family + generated constructor/fit cases; snapshot and fresh-copy differential invariants",
     "Stateful search: sequences of predict (spans from one day to a year, with/without usage, both flags, GHI-carrying data), serialise, "
     "interleaved real fits of other meters with other model objects and calendar maps, construction of unrelated models and writes into "
-    "handed-out frames are generated and shrunk as one value (the object under test is the one fit() returned, not a copy); after every step the "
+    "handed-out frames are generated and shrunk as one value (the object under test is the one fit() returned, or a stored model read back; not a copy); after every step the "
     "model's JSON must equal its post-fit snapshot, each prediction must be bit-identical to that of a fresh deep copy of the post-fit "
     "model, and every data object must be unchanged. Generated constructor and fit cases compare the caller's frames/series and the "
     "data object's lists with deep copies taken before the call.",
